@@ -5,6 +5,7 @@ package verifgen
 
 import (
 	"crypto/ecdsa"
+	"crypto/ed25519"
 	"crypto/elliptic"
 	"crypto/rand"
 	"encoding/json"
@@ -17,7 +18,9 @@ import (
 	verifrt "github.com/trustbloc/sidetree-go/pkg/internal/verifrt"
 	"github.com/trustbloc/sidetree-go/pkg/jws"
 	"github.com/trustbloc/sidetree-go/pkg/patch"
+	"github.com/btcsuite/btcd/btcec/v2"
 	"github.com/trustbloc/sidetree-go/pkg/util/ecsigner"
+	"github.com/trustbloc/sidetree-go/pkg/util/edsigner"
 	"github.com/trustbloc/sidetree-go/pkg/util/pubkey"
 	"github.com/trustbloc/sidetree-go/pkg/util/signutil"
 	"github.com/trustbloc/sidetree-go/pkg/versions/1_0/model"
@@ -153,6 +156,7 @@ type Signer struct {
 	Priv *ecdsa.PrivateKey
 	JWK  *jws.JWK
 	S    *ecsigner.Signer
+	S2   signutil.Signer // set for keys made by NewSignerKind
 }
 
 func NewSigner(tag string) *Signer {
@@ -163,8 +167,15 @@ func NewSigner(tag string) *Signer {
 	return &Signer{Priv: priv, JWK: jwk, S: ecsigner.New(priv, "ES256", "")}
 }
 
+func (s *Signer) signer() signutil.Signer {
+	if s.S2 != nil {
+		return s.S2
+	}
+	return s.S
+}
+
 func (s *Signer) Sign(model interface{}) string {
-	c, err := signutil.SignModel(model, s.S)
+	c, err := signutil.SignModel(model, s.signer())
 	must(err, "SignModel")
 	return c
 }
@@ -210,4 +221,24 @@ func NewDeactivate(suffix string, code uint, key *Signer, from, until int64) *De
 	d.Request = &model.DeactivateRequest{Operation: operation.TypeDeactivate, DidSuffix: suffix, RevealValue: Reveal(key.JWK, code),
 		SignedData: key.Sign(d.Signed)}
 	return d
+}
+
+// NewSignerKind: key kinds accepted by the v1 protocol configuration: 0 = P-256/ES256, 1 = secp256k1/ES256K,
+// 2 = Ed25519/EdDSA.
+func NewSignerKind(tag string, kind int) *Signer {
+	switch kind {
+	case 1:
+		priv, err := ecdsa.GenerateKey(btcec.S256(), rand.Reader)
+		must(err, "ecdsa.GenerateKey")
+		jwk, err := pubkey.GetPublicKeyJWK(&priv.PublicKey)
+		must(err, "GetPublicKeyJWK")
+		return &Signer{Priv: priv, JWK: jwk, S2: ecsigner.New(priv, "ES256K", "")}
+	case 2:
+		pub, priv, err := ed25519.GenerateKey(rand.Reader)
+		must(err, "ed25519.GenerateKey")
+		jwk, err := pubkey.GetPublicKeyJWK(pub)
+		must(err, "GetPublicKeyJWK")
+		return &Signer{JWK: jwk, S2: edsigner.New(priv, "EdDSA", "")}
+	}
+	return NewSigner(tag)
 }
